@@ -107,6 +107,9 @@ def collect_sites(facts):
 
 def run(c, facts, tier):
     guile = json.load(open(GUILE))
+    from .. import glue
+
+    glue.obligations(c, facts, peg.Builder(facts), "C04")
     c.trusted = ["E1 extractor", "emission interpreter", "spec/guile_string.json (Guile's string read syntax and format directive character; agreement with the real reader is not checked)"]
     c.explanation = (
         "Three rules over every emission site of the code generator (all arms of the TargetScheme impls, every binding either manager can push, the skeleton): parenthesis balance outside string literals "
@@ -179,6 +182,10 @@ def run(c, facts, tier):
             # discharge 1: sanitiser
             callee = h.get("callee") if h.get("kind") == "call" else None
             if callee in good_sani and dangerous <= good_sani[callee]:
+                spec_ = h.get("spec") or ""
+                if "." in spec_:
+                    c.ob("C04.taint", s.where, "hole %s in a string literal" % hk, False, "the text escaped by %s is then truncated by the precision in `{:%s}`: the cut can fall between a backslash and the character it escapes, and the decoded value is no longer the user's string" % (callee, spec_), witness="-pool 'aaaaaaaaaaaaaa\"'")
+                    continue
                 c.ob("C04.taint", s.where, "hole %s in a string literal" % hk, True, "sanitised by %s (escapes %s)" % (callee, sorted(good_sani[callee])))
                 continue
             # discharge 2: the producing parser's character set
